@@ -95,6 +95,9 @@ func (h *history) newSig(id string, auto bool) detection.Signature {
 			id = pick(h.r, histIDs)
 		}
 	}
+	if old, ok := h.model[id]; ok && id != "" && h.r.Intn(3) == 0 {
+		return tweak(old, h.r.Intn(nTweaks)) // one-field revision of the stored version
+	}
 	return genSig(h.r, id, h.ver, true, true)
 }
 
